@@ -272,6 +272,8 @@ func runC06(c *Ctx) {
 		"connection state recovery is on —, always runs leaveAll for a connected socket, and Join/Leave address the adapter under the socket's own id (shared with C04-D5)", 5)
 	closedSocketInNoRoom(c, "C06-D6")
 
+	c06Round4(c)
+
 	c.Rule("C06-D7", "the Engine.IO close closes the transport for every reason except exactly those that say the transport has already closed (transport close / transport error): "+
 		"for each Reason constant of the package the reason test of serverSocket.close / clientSocket.close is folded and transport.Close() must be reachable iff the reason is not one of the two; "+
 		"a ping timeout or a forced close that leaves the transport open lets the half-dead peer keep using the closed session", 10)
